@@ -468,6 +468,17 @@ class FetchAtt:
         """
         msg_text = self._body(msg, section, top_level=True)
 
+        # The renderer hands back a lone CRLF for the body of a message that
+        # has no body at all. The TEXT of such a message is empty.
+        #
+        if (
+            msg_text == b"\r\n"
+            and section == ["text"]
+            and not msg.is_multipart()
+            and not msg.get_payload()
+        ):
+            msg_text = b""
+
         # We need to always terminate with crlf. (Unless there is nothing to
         # terminate: the TEXT of a message that has no body is empty.)
         #
